@@ -64,6 +64,15 @@ fn new_world() -> World {
     w
 }
 
+/// derived bundles: the macro's generated `fetch` is a code path of its own
+#[derive(shred::SystemData)]
+pub struct Dz<'a> {
+    a: Write<'a, Cell0>,
+    b: Read<'a, Cell1>,
+}
+#[derive(shred::SystemData)]
+pub struct Dt<'a>(Read<'a, Cell0>, Option<Write<'a, CellX>>, Write<'a, Cell1>);
+
 pub enum G<'a> {
     R0(Fetch<'a, Cell0>),
     W0(FetchMut<'a, Cell0>),
@@ -72,6 +81,8 @@ pub enum G<'a> {
     Sd0((Read<'a, Cell0>, Write<'a, Cell1>)),
     Sd1((Option<Read<'a, CellX>>, Read<'a, Cell1>)),
     Sd2((Option<Write<'a, Cell0>>, Option<Read<'a, Cell1>>)),
+    Sd4(Dz<'a>),
+    Sd5(Dt<'a>),
     Mr(AtomicRef<'a, dyn Tagged + 'static>),
     Mw(AtomicRefMut<'a, dyn Tagged + 'static>),
     /// a live meta-table iterator: holds no borrow itself, every `next` yields a guard of its own
@@ -191,6 +202,8 @@ fn members(op: Op8) -> Option<(Vec<(u8, bool, bool)>, bool)> {
         Op8::SysData(0) => (vec![(0, false, false), (1, true, false)], false),
         Op8::SysData(1) => (vec![(3, false, true), (1, false, false)], false),
         Op8::SysData(2) => (vec![(0, true, true), (1, false, true)], false),
+        Op8::SysData(4) => (vec![(0, true, false), (1, false, false)], false),
+        Op8::SysData(5) => (vec![(0, false, false), (3, true, true), (1, true, false)], false),
         Op8::SysData(_) => (vec![(0, true, false), (0, false, false)], false),
         Op8::MetaIterNext => (vec![(0, false, false)], false),
         Op8::MetaIterMutNext => (vec![(0, true, false)], false),
@@ -258,6 +271,8 @@ fn acquire_real<'a>(w: &'a World, meta: &'a MetaTable<dyn Tagged>, op: Op8) -> R
         Op8::SysData(0) => Some(G::Sd0(w.system_data())),
         Op8::SysData(1) => Some(G::Sd1(w.system_data())),
         Op8::SysData(2) => Some(G::Sd2(w.system_data())),
+        Op8::SysData(4) => Some(G::Sd4(w.system_data())),
+        Op8::SysData(5) => Some(G::Sd5(w.system_data())),
         Op8::SysData(_) => {
             let _d: (Write<Cell0>, Read<Cell0>) = w.system_data();
             return Err("self-conflicting system data was fetched".into());
@@ -307,6 +322,8 @@ fn touch(g: &mut G, hold: &Hold, m: &mut Model) -> Result<(), String> {
                         x.0 = c
                     }
                 }
+                (G::Sd4(d), 0) => d.a.0 = c,
+                (G::Sd5(d), 1) => d.2 .0 = c,
                 (G::Mw(x), _) => x.set(c),
                 _ => return Err("model says exclusive member but the guard has none".into()),
             }
@@ -339,6 +356,17 @@ fn touch(g: &mut G, hold: &Hold, m: &mut Model) -> Result<(), String> {
                 return Err("Option<Read<present>> is None".into());
             }
         }
+        G::Sd4(d) => {
+            vals.push(d.a.0);
+            vals.push(d.b.0);
+        }
+        G::Sd5(d) => {
+            vals.push(d.0 .0);
+            if d.1.is_some() {
+                return Err("Option<Write<absent>> is Some".into());
+            }
+            vals.push(d.2 .0);
+        }
         G::Mr(x) => vals.push(x.get()),
         G::Mw(x) => vals.push(x.get()),
         G::It(_) | G::ItMut(_) => {}
@@ -366,7 +394,7 @@ pub fn acquire_ops() -> Vec<Op8> {
         v.push(Op8::TryFetchById(k));
         v.push(Op8::TryFetchMutById(k));
     }
-    for i in 0..4u8 {
+    for i in 0..6u8 {
         v.push(Op8::SysData(i));
     }
     v.push(Op8::MetaIterNext);
